@@ -4,7 +4,7 @@ import ast
 
 from .. import AnalysisError
 from ..cfg import ALL_KINDS, NORMAL_KINDS, iter_own
-from ..lib import _single_return, both_orders, dominated_by, guard_forms, key_of, norm, render, return_conditions
+from ..lib import _single_return, both_orders, iteration_paths, dominated_by, guard_forms, key_of, norm, render, return_conditions
 from ..report import describe, rule
 
 P = "C18"
@@ -18,7 +18,8 @@ describe(
     "{COMPLETE, NONE} count as finished and an id absent from squeue is NONE; submit() returns GOOD only if sbatch "
     "returned 0 and its output matched the job-id pattern (the job id exists only on that path); run_command executes the "
     "process only inside `for ... in range(num_retries + 1)`, leaves the loop on the first success before any sleep and "
-    "forces the last iteration on a listed permanent error.",
+    "forces the last iteration on a listed permanent error."
+    " Every non-blank line of the squeue answer yields an entry and the parse loop is never left early.",
     ["SLURM's spelling of options (e.g. --ntasks_per_node) is outside the statement", "squeue --Format output has the requested columns"],
     "parsing robustness over arbitrary whitespace and the full SLURM state vocabulary beyond 'unknown names are UNKNOWN'.",
 )
@@ -149,6 +150,21 @@ def c18_3(ctx, r):
     gs = ctx.fn(f"{SM}._get_statuses_from_output", "C18.3")
     txt = ctx.src(gs.node).replace(" ", "")
     r.check("job_id=fields[0]" in txt and "status=fields[1]" in txt and "statuses[job_id]=" in txt, "parse: id = field 0, state = field 1", key_of(gs, "field order"), gs.loc(), "the squeue line is parsed with a different field order")
+    # every non-blank line of the answer yields an entry: a line skipped (or a parse loop left early) makes the
+    # ids behind it look absent, and absent = finished
+    cfgs = ctx.cfg(gs)
+    stores = [n for n in cfgs.nodes if n.kind == "stmt" and isinstance(n.ast, ast.Assign) and isinstance(n.ast.targets[0], ast.Subscript) and ctx.src(n.ast.targets[0].value) == "statuses"]
+    loops = [n for n in iter_own(gs.node) if isinstance(n, ast.For)]
+    if len(loops) != 1 or not stores:
+        raise AnalysisError("C18.3", f"expected one parse loop with a store into `statuses` in {gs.short}")
+    lv = ctx.src(loops[0].target)
+    blank = {(f"{lv} == ''", True), (lv, False), (f"{lv}.strip()", False), (f"{lv}.strip() == ''", True)}
+    for end, conds, last in iteration_paths(ctx, gs, loops[0], avoid=stores):
+        okp = end == "next" and bool(conds & blank)
+        what = "leaves the parse loop" if end == "leave" else "skips a line"
+        r.check(okp, "a line is skipped only if it is blank, and the parse loop is never left early", key_of(gs, f"{what} under {sorted(('' if p else 'not ') + f for f, p in conds)}"), gs.loc(last.stmt if last.stmt is not None else loops[0]),
+                f"_get_statuses_from_output {what} without recording a status under {sorted(('' if p else 'not ') + f for f, p in conds)}: the batch ids on (or after) that line are absent from the answer, and an absent id counts as finished",
+                "A batch that the scheduler reports in any state other than finished or absent is never treated as finished")
     cs = ctx.fn(f"{SM}.check_statuses", "C18.3")
     r.check('("jobid","state")' in ctx.src(cs.node).replace(" ", "").replace("'", '"'), "squeue is asked for (jobid, state)", key_of(cs, "format"), cs.loc(), "squeue --Format columns changed")
     ic = ctx.fn("AsyncHpcSubmitter.is_complete", "C18.3")
